@@ -50,6 +50,7 @@ type Exec struct {
 	usedInv     map[string]bool
 	readKeys    map[string]bool
 	specMemo    map[string]Value
+	readLog     *[]heapRead
 	reveal      map[string]bool
 }
 
@@ -217,6 +218,9 @@ func (ex *Exec) readLoc(st *State, loc *Loc) Value {
 		}
 		if ex.readKeys != nil && loc.Kind != LLocal {
 			ex.readKeys[loc.Keys[k]] = true
+		}
+		if ex.readLog != nil && loc.Kind != LLocal {
+			*ex.readLog = append(*ex.readLog, heapRead{loc.Keys[k], v.C[j]})
 		}
 	}
 	return v
@@ -580,7 +584,31 @@ func (ex *Exec) loopHead(fr *Frame, st *State, li *loopInfo, fname string) {
 		lw := newWriteSet()
 		lw.locals = ws.locals
 		lw.alloc = true
+		freshOnly := false
+		for _, mt := range spec.Modifies {
+			if mt.Fresh {
+				freshOnly = true
+			}
+		}
+		if freshOnly && !ws.all {
+			// objects allocated since entry may change arbitrarily: havoc the statically written keys, keep older objects
+			for k := range ws.keys {
+				lw.keys[k] = true
+			}
+		}
 		ex.havoc(st, lw, fmt.Sprintf("loop%d", li.ordinal), fr)
+		if freshOnly && !ws.all {
+			for k := range ws.keys {
+				srt := keySortReg[k]
+				if srt == nil || srt.Kind != SArray || srt.Idx != IntSort {
+					continue
+				}
+				r := BoundVar("r", IntSort)
+				after := st.heap.Get(k, srt)
+				before := pre.heap.Get(k, srt)
+				ex.assume(st.pc, Forall([]*Term{r}, Implies(Le(r, fr.entry.wm), Eq(Select(after, r), Select(before, r))), [][]*Term{{Select(after, r)}}))
+			}
+		}
 		ex.havocTargets(st, spec.Modifies, env, fr, fmt.Sprintf("loop %d of %s", li.ordinal, fname))
 		if fr.loopHeads == nil {
 			fr.loopHeads = map[*loopInfo]*State{}
